@@ -262,6 +262,23 @@ class Check:
         props = os.path.join(tdir, "Properties.v")
         self._compile_properties(props)
         self.coverage["coq_build_s"] = round(time.time() - t0, 1)
+        if self.tier == "thorough" and self.proof_ok and not os.environ.get("VERIF_NO_COQCHK"):
+            self._coqchk(subdir)
+
+    def _coqchk(self, subdir):
+        """Thorough tier: independent re-check of the compiled property file and everything it depends on."""
+        t0 = time.time()
+        rc, out = sh("ulimit -s unlimited; timeout 1500 coqchk -silent -o -Q theories QV -Q gen QVgen QV.%s.Properties" % subdir,
+                     cwd=COQ, timeout=1600, env=self.coq_env())
+        axioms = []
+        m = re.search(r"\* Axioms:(.*?)(\n\s*\n|\* |\Z)", out, re.S)
+        if m:
+            axioms = [l.strip() for l in m.group(1).strip().splitlines() if l.strip() and "<none>" not in l]
+        self.coverage["coqchk"] = {"exit": rc, "axioms": axioms, "wall_s": round(time.time() - t0, 1),
+                                   "tail": out[-600:]}
+        if rc != 0:
+            self.proof_ok = False
+            self.proof_log += "coqchk failed:\n" + out[-2000:]
 
     def _compile_properties(self, props):
         src = strip_coq_comments(open(props).read())
